@@ -427,6 +427,7 @@ def _run(ctx, tmp, procs):
                            "the model sizes; MjData contents for put_data come from the wheel's engine as arbitrary data)")
 
     orc = Oracle(ctx)
+    directed_cases(ctx, orc, hx)
     nmodels = 3 if quick else 10
     all_lines, all_model, all_impl = [], [], []
     hist = {}
@@ -501,6 +502,34 @@ def _run(ctx, tmp, procs):
     ctx.extra["oracle_failure_keys"] = orc.keys
     if ctx.tier == "thorough":
         ctx.leanchecker(["MjProof.Props.C44", "MjProof.Props.C44Gen"])
+
+
+def directed_cases(ctx, orc, hx):
+    """fixed inputs on which the real code was confirmed to deviate from the property; each has a stable key"""
+    o = hx.ask("directed", timeout=900)
+    if o is None:
+        orc.fail("c44:harness-died", "MJX harness died on the directed cases", {})
+        return
+    r = json.loads(o)
+    ctx.extra["directed_cases"] = r
+    a = r["inactive-limit"]
+    orc.n += 3
+    if any(a["orig"][k] != a["roundtrip"][k] for k in ("ne", "nf", "nl")):
+        orc.fail("c44:putget:ne-nf-nl-not-recomputed",
+                 "get_data(put_data(d)) changes ne/nf/nl: a hinge with an inactive joint limit has d.nl = %d, nefc = %d; after the round trip nl = %d, "
+                 "nefc = %d (get_data recomputes nefc/ncon from the active rows but copies MJX's static ne/nf/nl)"
+                 % (a["orig"]["nl"], a["orig"]["nefc"], a["roundtrip"]["nl"], a["roundtrip"]["nefc"]), {"xml": a["xml"], "result": a})
+    b = r["margin-contact"]
+    if b["orig"]["ncon"] != b["roundtrip"]["ncon"]:
+        orc.fail("c44:putget:contact-positive-dist-dropped",
+                 "get_data keeps only contacts with dist <= 0: a sphere 0.02 above a plane with margin 0.05 has ncon = %d (dist %s), after "
+                 "put_data/get_data ncon = %d while nefc stays %d" % (b["orig"]["ncon"], b["orig_contact_dist"], b["roundtrip"]["ncon"], b["roundtrip"]["nefc"]),
+                 {"xml": b["xml"], "result": b})
+    if b["get_data_of_make_data_ncon"] != b["get_data_of_put_data_fresh_ncon"]:
+        orc.fail("c44:makedata:contact-dist",
+                 "make_data initialises contact.dist to 0 for every potential contact, put_data(fresh MjData) pads with 1e10: "
+                 "get_data(make_data(m)).ncon = %d, get_data(put_data(m, MjData(m))).ncon = %d"
+                 % (b["get_data_of_make_data_ncon"], b["get_data_of_put_data_fresh_ncon"]), {"xml": b["xml"], "result": b})
 
 
 def extra_ops(ctx, orc, hx, mi, kind, desc, quick):
